@@ -19,12 +19,84 @@ sc_ranges_decode
   decode_row_recv / decode_row_send    offset of a rank's row in global_ranges
   decode_recv_stop / decode_recv_first / decode_recv_cond / decode_recv_body   the receivers of `rank`
   decode_send_self / decode_send_body                                          is j a sender to `rank`
-coq/C15/RangesGen.v proves that the hand-written model (RangesModel.v) computes exactly these."""
+coq/C15/RangesGen.v proves that the hand-written model (RangesModel.v) computes exactly these.
+
+Loops and whole bodies (class RangesT = slicelib.SliceT + three documented additions: a chained assignment `a = b = e` is `b = e; a = b`;
+`*(T *) p` for a pointer variable p is the location p_deref; `a[K]` with a literal K is the location a_K).  Here `ranges[e]` / `procs[e]`
+are MEMORY READS (`ranges e`, `procs e` with ranges, procs : Z -> Z), so the loops are translated as loops (fuelled fixpoints):
+  compute_claim_scan      the loop that finds the first unused slot (and the two stores into it): which slot a new gap goes into
+  compute_evict_scan      `nwin = lastw; shortest_range = -1; shortest_length = num_procs + 1; for (i = 0; i < num_ranges; ++i) ..`:
+                          the WHOLE scan for the shortest slot with its bounds
+  compute_sort            the statements between the walk over the peers and the inversion: qsort (ranges, nwin, 2 * sizeof (int), ..) is
+                          called unconditionally (ghost output qsort_called = 1) - the comparator argument is checked here to be
+                          sc_ranges_compare; ranges_compare = the body of sc_ranges_compare
+  adaptive_body           the WHOLE body of sc_ranges_adaptive: the loop that counts the peers (procs[j] > 0 && j != rank), the arguments of
+                          sc_ranges_compute / sc_MPI_Allreduce / sc_malloc / sc_MPI_Allgather (ghost outputs <callee>_called, _arg<i>), the
+                          contributions local[0], local[1], the outputs *inout1, *inout2, *global_ranges, the return value
+  statistics_body         the WHOLE body of sc_ranges_statistics: the two nested loops and the value handed to sc_stats_set1
+coq/C15/RangesGenLoops.v proves the model equal to these."""
 import os, re
 
 
 def register(GROUPS, c2g, incs, REPO, HERE, STRUCTS, Group):
     import slicelib as sl
+
+    class RangesT(sl.SliceT):
+        """SliceT with one documented addition: a chained assignment `a = b = e` at statement level is read as `b = e; a = b`."""
+        loops_return_int = False       # the function returns an int: a `return e;` inside a loop would deliver an integer
+
+        @property
+        def ret_void(self):
+            return not self.loops_return_int
+
+        @ret_void.setter
+        def ret_void(self, v):
+            pass
+
+        def __init__(self, **kw):
+            super().__init__(**kw)
+            self.const_index_locations = True     # `local[0]`, `global[1]` (literal index) are the scalar locations local_0, global_1
+
+        def lvalue_key(self, n):
+            # *(T *) p for a pointer variable p: the location p_deref (the object p points to, read at type T)
+            n2 = c2g.skip_parens(n)
+            if n2.get("kind") == "UnaryOperator" and n2.get("opcode") == "*":
+                b = sl.strip(n2["inner"][0])
+                if b.get("kind") == "DeclRefExpr":
+                    return b["referencedDecl"]["name"] + "_deref"
+            return super().lvalue_key(n)
+
+        def referenced(self, s_, acc):
+            # a[e] for a memory-read array references what e references; a[K] with a literal K is the location a_K
+            if s_.get("kind") == "ArraySubscriptExpr":
+                if self.fun_name(s_) is not None:
+                    self.referenced(s_["inner"][1], acc)
+                    return
+                b, ix = sl.strip(s_["inner"][0]), sl.strip(s_["inner"][1])
+                if b.get("kind") == "DeclRefExpr" and ix.get("kind") == "IntegerLiteral" and b["referencedDecl"]["name"] not in self.pair_arrays:
+                    acc.add("%s_%s" % (b["referencedDecl"]["name"], ix["value"]))
+                    return
+            super().referenced(s_, acc)
+
+        def stmts(self, ss, env, K):
+            if ss and ss[0].get("kind") == "BinaryOperator" and ss[0].get("opcode") == "=":
+                rhs = c2g.skip_parens(ss[0]["inner"][1])
+                if rhs.get("kind") == "BinaryOperator" and rhs.get("opcode") == "=":
+                    lv = rhs["inner"][0]
+                    read = dict(kind="ImplicitCastExpr", castKind="LValueToRValue", type=lv.get("type", {}), inner=[lv])
+                    return self.stmts([rhs, dict(ss[0], inner=[ss[0]["inner"][0], read])] + list(ss[1:]), env, K)
+            return super().stmts(ss, env, K)
+
+    def remit(*a, **kw):
+        """sl.emit_block with RangesT as the translator"""
+        saved = sl.SliceT
+        RangesT.loops_return_int = bool(kw.pop("loops_return_int", False))
+        sl.SliceT = RangesT
+        try:
+            return sl.emit_block(*a, **kw)
+        finally:
+            sl.SliceT = saved
+            RangesT.loops_return_int = False
 
     def gen_ranges(tmp):
         g = Group("RangesC15")
@@ -152,6 +224,54 @@ def register(GROUPS, c2g, incs, REPO, HERE, STRUCTS, Group):
         t, i = sl.emit_block(list(srow["inner"][-1].get("inner", [])), "decode_send_body", ["sender_ranks_hit", "sender_ranks_val", "ns", "stop"], D,
                              params=("the_ranges_lo_i", "the_ranges_hi_i", "rank", "j", "ns"),
                              want_params=["the_ranges_lo_i", "the_ranges_hi_i", "rank", "j", "ns"], jumps_end=True, **KW)
+        g.add(t, i)
+
+
+        # ---- the eviction scan as a loop, the final sort and its comparator
+        st = c2g.select_between(fn(C), src, r"nwin = lastw;", r"SC_ASSERT \(shortest_range >= 0 && shortest_range <= lastw\);")
+        t, i = remit(st, "compute_evict_scan", ["nwin", "shortest_range", "shortest_length"], C, array_reads=("ranges",),
+                     params=("lastw", "num_procs", "num_ranges", "length"), want_params=["lastw", "num_procs", "num_ranges", "length"], drop_calls=("sc_log", "sc_logf"))
+        g.add(t, i)
+        st = c2g.select_between(fn(C), src, r"SC_ASSERT \(nwin >= 0 && nwin < num_ranges\);", r"/\* compute real ranges from empty ranges \*/")
+        qs = one(sl.find_nodes(fn(C), lambda n: n.get("kind") == "CallExpr" and sl.callee_name(n) == "qsort"), "compute: qsort call")
+        if sl.strip(qs["inner"][4]).get("referencedDecl", {}).get("name") != "sc_ranges_compare":
+            raise c2g.Unsupported("sc_ranges_compute: qsort is not called with sc_ranges_compare")
+        t, i = remit(st, "compute_sort", ["*ghosts"], C, effects=("qsort",), effect_called=True, effect_skip_args={"qsort": (3,)},
+                     params=("ranges", "nwin"), want_params=["ranges", "nwin"], drop_calls=("sc_log", "sc_logf"))
+        g.add(t, i)
+        bodyK = [c for c in fn("sc_ranges_compare")["inner"] if c.get("kind") == "CompoundStmt"][0]
+        t, i = remit(list(bodyK.get("inner", [])), "ranges_compare", ["ret"], "sc_ranges_compare", ret="ret",
+                     params=("v1_deref", "v2_deref"), want_params=["v1_deref", "v2_deref"])
+        g.add(t, i)
+
+        st = c2g.select_between(fn(C), src, r"for \(i = 0; i < num_ranges; \+\+i\) \{\s*\n\s*if \(ranges\[2 \* i\] == -1\)", r"SC_ASSERT \(i < num_ranges\);")
+        t, i = remit(st, "compute_claim_scan", ["i", "ranges_store"], C, array_reads=("ranges",), store_arrays=("ranges",),
+                     params=("num_ranges", "prev", "j", "ranges_store"), want_params=["num_ranges", "prev", "j", "ranges_store"], drop_calls=("sc_log", "sc_logf"))
+        g.add(t, i)
+        # ---- sc_ranges_adaptive: the whole body
+        A = "sc_ranges_adaptive"
+        FA = fn(A)
+        bodyA = [c for c in FA["inner"] if c.get("kind") == "CompoundStmt"][0]
+        stA = [x for x in bodyA.get("inner", []) if x.get("kind") != "DeclStmt"]
+        AEFF = ("sc_MPI_Comm_size", "sc_MPI_Comm_rank", "sc_ranges_compute", "sc_MPI_Allreduce", "sc_MPI_Allgather", "sc_malloc")
+        AP = ["mpicomm", "sc_MPI_Comm_size_ret", "sc_MPI_Comm_rank_ret", "inout1_deref", "inout2_deref", "num_procs", "rank", "local_1",
+              "global_ranges_deref", "package_id", "num_ranges", "ranges", "sc_ranges_compute_ret", "SC3_MPI_INT", "SC3_MPI_MAX",
+              "sc_MPI_Allreduce_ret", "global_0", "global_1", "global_ranges", "sc_package_id", "sc_malloc_ret", "sc_MPI_Allgather_ret"]
+        # num_procs / rank: what sc_MPI_Comm_size / _rank stored; global_0 / global_1: what sc_MPI_Allreduce stored into global[];
+        # local_1, global_ranges_deref: values before the call (only on paths that do not assign them)
+        t, i = remit(stA, "adaptive_body", ["*ghosts", "local_0", "local_1", "inout1_deref", "inout2_deref", "global_ranges_deref", "ret"], A,
+                     ret="ret", loops_return_int=True, array_reads=("procs",), effects=AEFF, effect_called=True, enum_params=True,
+                     effect_skip_args={"sc_ranges_compute": (2,), "sc_MPI_Allreduce": (0, 1)},
+                     params=tuple(AP), want_params=AP, drop_calls=("sc_log", "sc_logf"))
+        g.add(t, i)
+
+        # ---- sc_ranges_statistics: the whole body
+        S = "sc_ranges_statistics"
+        bodyS = [c for c in fn(S)["inner"] if c.get("kind") == "CompoundStmt"][0]
+        stS = [x for x in bodyS.get("inner", []) if x.get("kind") != "DeclStmt"]
+        SP = ["j", "num_ranges", "rank", "mpicomm"]       # j: its value before the loops (never read)
+        t, i = remit(stS, "statistics_body", ["*ghosts"], S, array_reads=("ranges", "procs"), effects=("sc_stats_set1", "sc_stats_compute"),
+                     effect_called=True, params=tuple(SP), want_params=SP, drop_calls=("sc_log", "sc_logf"))
         g.add(t, i)
         return g, [f]
 
